@@ -130,7 +130,7 @@ func (g *Gen) FormatUnits(u *Units, n int64) string {
 // schemas
 
 var patternPool = []string{`^[a-z]+$`, `^a`, `[0-9]+`, `^.{2,4}$`, `x|y`, `^$`, `^[A-Za-z0-9_]*$`}
-var stringPool = []string{"", "a", "ab", "abc", "abcd", "x", "y", "5", "10", "-3", "true", "hello", "A", "é", "日本", "a b", "1.5", "007", " 7", "+4"}
+var stringPool = []string{"", "a", "ab", "abc", "abcd", "x", "y", "5", "10", "-3", "true", "hello", "A", "é", "日本", "a b", "1.5", "007", " 7", "+4", "cpu%", "%s", "100%d"}
 var propNames = []string{"a", "b", "c", "d", "e"}
 
 type scopeCtx struct {
